@@ -15,7 +15,7 @@ ASSUMPTIONS = [
     "real disk I/O and binascii are modelled (VFS, abstract hex pair); the on-disk Bloom filter is C11's subject",
 ]
 BOUNDS = {
-    "quick": "Bloom (1,.5)->2 bits, (3,.2)->11/3, (5,.3)->13/2; counting Bloom 2, 3, 6 cells; expanding/rotating 1..3 sub-filters (est 2, one-hash geometry); count-min family 1x1, 2x2, 3x2 (mean-min from width 2); cuckoo / counting cuckoo capacity 1..3 x bucket 1..2, every occupancy shape; channels bytes, __bytes__, file object, file path (+ hex for the Bloom family)",
+    "quick": "Bloom (1,.5)->2 bits, (3,.28)->8/2, (3,.2)->11/3, (5,.3)->13/2, (5,.22)->16/2; counting Bloom 2, 3, 6 cells; expanding/rotating 1..3 sub-filters (est 2, one-hash geometry); count-min family 1x1, 2x2, 3x2 (mean-min from width 2); cuckoo / counting cuckoo capacity 1..3 x bucket 1..2, every occupancy shape; channels bytes, __bytes__, file object, file path (+ hex for the Bloom family)",
     "thorough": "adds Bloom (10,.05)->63/4, counting Bloom 11 cells, count-min 3x3",
     "outside": "larger geometries; real file systems; BloomFilterOnDisk (C11)",
 }
@@ -100,6 +100,8 @@ def _expanding(ctx, cfg):
     rot = cfg["kind"] == "rot"
     est, L, rate = cfg["est"], cfg["L"], cfg.get("rate", 0.5)
     Q = cfg.get("Q", 3)
+    table = {}
+    FIXED = lambda key, depth=1: table.get(key, [3, 5, 7, 11, 13, 17, 19, 23, 29, 31])[:depth]  # noqa: E731,N806  (a hand-written strategy)
     obj = RotatingBloomFilter(est, rate, max_queue_size=Q, hash_function=FIXED) if rot else ExpandingBloomFilter(est, rate, hash_function=FIXED)
     cnt = sym_state(ctx, obj, L, est, BloomFilter)
     obj._added_elements = ctx.int("added", 0, 2 ** 64 - 1)
@@ -122,6 +124,8 @@ def _expanding(ctx, cfg):
     k, m = obj._blooms[0].number_hashes, obj._blooms[0].number_bits
     probe = hv(ctx, "probe", k, m)
     ctx.check(obj.check_alt(probe) is g.check_alt(probe), "same-answer")
+    table["probe key"] = probe
+    ctx.check(obj.check("probe key") is g.check("probe key") and ("probe key" in g) is obj.check("probe key"), "same-answer-by-key")
     ctx.check(env.blob_eq(ctx, blob, env.export_bytes(ctx, g)), "reexport-identical")
     ctx.check(env.blob_eq(ctx, blob, env.export_bytes(ctx, obj)), "channels-agree")
     if rot:
@@ -176,7 +180,23 @@ def _cuckoo(ctx, cfg):
         a2 = g.check("new")
         ctx.check(ctx.eq(a1, a2) if t.counting else a1 is a2, "same-answer" + sfx)
         ctx.check(env.blob_eq(ctx, blob, env.export_bytes(ctx, g)), "reexport-identical" + sfx)
+        again = c03.stored(t2)          # exporting the loaded filter leaves its table alone (C19 for loaded filters)
+        ctx.check(len(again) == len(after) and
+                  ctx.fork(ctx.and_([ctx.and_(x[0] == y[0], ctx.eq(x[1], y[1]), ctx.eq(x[2], y[2])) for x, y in zip(after, again)])),
+                  "loaded-export-leaves-table" + sfx)
+        ctx.check(all(len(b) <= g.bucket_size for b in g.buckets), "loaded-export-leaves-table" + sfx)
     ctx.check(env.blob_eq(ctx, blob, env.export_bytes(ctx, f)), "channels-agree")
+    if cfg.get("rate"):
+        # a filter sized by error rate: frombytes(b, error_rate) and load_error_rate(rate, path) restore the same fingerprint width
+        e = cfg["rate"]
+        o = cls.init_error_rate(e, capacity=f.capacity, bucket_size=f.bucket_size, max_swaps=f.max_swaps, hash_function=t.hf)
+        b2 = env.export_bytes(ctx, o)
+        g1 = cls.frombytes(b2, error_rate=e, hash_function=t.hf)
+        p = fs.path(0, "rate.bin")
+        o.export(p)
+        g2 = cls.load_error_rate(e, p, hash_function=t.hf)
+        ctx.check(g1.fingerprint_size_bits == o.fingerprint_size_bits and g2.fingerprint_size_bits == o.fingerprint_size_bits and
+                  g1.error_rate == e and g2.error_rate == e, "cuckoo-error-rate-resupplied")
     ctx.check(len(blob) == f.capacity * f.bucket_size * (8 if t.counting else 4) + 8, "export-size")
 
 
@@ -198,7 +218,7 @@ def jobs(tier):
     js = []
     o = {"witnesses": 1}
     oc = {"index_concretize_limit": 8, "witnesses": 1}
-    for est, fpr in [(1, .5), (3, .2), (5, .3)] + ([(10, .05)] if tier == "thorough" else []):
+    for est, fpr in [(1, .5), (3, .28), (3, .2), (5, .3), (5, .22)] + ([(10, .05)] if tier == "thorough" else []):
         for ch in CHANNELS:
             js.append({"h": "c05.roundtrip", "cfg": {"kind": "bloom", "est": est, "fpr": fpr, "channel": ch}, "opts": dict(o, cost=est)})
     for est, fpr in [(1, .5), (1, .3), (2, .3)] + ([(3, .2)] if tier == "thorough" else []):
@@ -226,6 +246,9 @@ def jobs(tier):
                     js.append({"h": "c05.roundtrip", "cfg": {"kind": "ccuckoo" if counting else "cuckoo", "cap": cap, "bsz": bsz, "swaps": 3,
                                                               "auto": True, "occ": list(occ), "counting": counting, "channel": ch}, "opts": dict(oc, cost=cap * bsz)})
         # a stored fingerprint equal to 0 (reachable: a key whose hash has zero low bits)
+        for bsz in (1, 2, 3):
+            js.append({"h": "c05.roundtrip", "cfg": {"kind": "ccuckoo" if counting else "cuckoo", "cap": 2, "bsz": bsz, "swaps": 3, "auto": True,
+                                                      "occ": [1, 0], "counting": counting, "channel": "bytes", "rate": 0.01}, "opts": dict(oc)})
         for occ in ([1, 0], [1, 1]):
             js.append({"h": "c05.roundtrip", "cfg": {"kind": "ccuckoo" if counting else "cuckoo", "cap": 2, "bsz": 1, "swaps": 3, "auto": True,
                                                       "occ": occ, "counting": counting, "channel": "bytes", "zero": True}, "opts": dict(oc)})
